@@ -32,6 +32,8 @@ using C0 = std::complex<S0>;
 #define VF_STR2(x) #x
 #define VF_STR(x) VF_STR2(x)
 static const char* SCALAR_NAME = VF_STR(VF_SCALAR);
+// the float / long double instantiations (thorough tier only) run a narrower, always-completed set of families
+static const bool NARROW = !std::is_same<S0, double>::value;
 
 template <typename Scalar>
 static uint64_t probe_op(const std::function<void(const Scalar*, Scalar*)>& f, long n)
@@ -449,7 +451,7 @@ int main(int argc, char** argv)
             run_herm_matrix(A, "hspec6:" + ln + ":ph" + num(ph), idx, true, L, "hspec6#" + num(idx));
         });
     }
-    if (!q)
+    if (!q && !NARROW)
     {
         const int depth_saved = PLAN.depth;
         PLAN.light = true;
